@@ -5,7 +5,7 @@ From Coq Require Import List NArith ZArith Arith Bool.
 From Coq Require Extraction.
 From Coq Require Import ExtrOcamlBasic.
 From Chiri Require Import Base.Bytes Base.Res Model.Tokenizer Model.TagParser Model.TreeParser
-     Model.Chrono Model.Finders Model.Markers Model.Format Model.Clean Model.ListRender.
+     Model.Chrono Model.Finders Model.Markers Model.Format Model.Clean Model.ListRender Model.Cli.
 
 Extraction "../ocaml/model.ml"
   wf_utf8 tokenize parse_token parse_tree front_end
@@ -14,4 +14,5 @@ Extraction "../ocaml/model.ml"
   indent_remover empty_line_remover prev_line_break_remover next_line_break_remover
   format_block block_indent_remover format_ranges format clean
   find_next_lb find_prev_lb find_next_char
-  list_pretty list_json list_all_pretty list_all_json build_item.
+  list_pretty list_json list_all_pretty list_all_json build_item
+  run default_args.
